@@ -79,8 +79,9 @@ func genCacheHist(rnd *rand.Rand, seed int64, idx, length int) CCase {
 			content[i][n] = v
 			op := COp{Op: "put", I: i, N: n, V: v, Mt: mtime[n]}
 			if i == 2 {
-				mtime[n]++
+				// the first stamp a name gets is 0, every later one is one more
 				op.Mt = mtime[n]
+				mtime[n]++
 			}
 			c.Ops = append(c.Ops, op)
 		case k < 16: // delete from the plain loader (deleting from the other one needs knowledge of the cache: left to TLC)
